@@ -206,7 +206,11 @@ def run_xh(pid, prelude, conds, tier, seed, *, assumptions, outside, bounds, def
                 out_lines.append(f"  condition={c.name} ({c.what}) counterexample: {call}  [{r['msg'][:160]}]")
                 exit_code = EXIT_VIOLATION
             else:
-                harness_errors.append(f"counterexample of {c.name} did not replay in plain Python: {r['msg'][:200]} ({detail})")
+                # CrossHair's own models of builtins can differ from CPython: a counterexample that does not reproduce
+                # concretely is neither a violation nor a pass
+                n_inc += 1
+                per_cond[-1]["verdict"] = "inconclusive"
+                per_cond[-1]["detail"] = f"counterexample did not replay in plain Python: {call} ({detail.strip()[:80]})"
         else:
             n_inc += 1
     for f in findings:
